@@ -15,7 +15,7 @@ ID = "C09"
 LEAN_MODULE = "CKT.Props.C09"
 THEOREMS = ["CKT.C09." + t for t in ["greedyWrites_id", "step_preserves", "run_preserves", "history_independent", "find_cuts_reproducible",
                                       "exact_weights_pure"]]
-RULE = ("target find_cuts requests (integer-kappa circuits, compared exactly with the model) evaluated before and after random histories of 2-12 other "
+RULE = ("target find_cuts requests (integer-kappa circuits, compared exactly with the model; circuits whose cut candidates take the KAK path - rzx, xx+-yy, unitaries, instances of a user-defined gate class that share name and parameters but not their matrix - compared on overhead and on the decomposition attached to every cut gate) evaluated before and after random histories of 2-12 other "
         "calls (other circuits, restricted settings, requests that raise: three-qubit gates, bad settings), after reseeding/advancing numpy's and "
         "Python's global generators, and in a fresh interpreter; exact-weight experiment generation likewise; monitored: fingerprints of the action "
         "registry, both module-level function tables and the decomposition registry after every call, global RNG states before/after; distinct by payload")
@@ -48,7 +48,10 @@ def _rng_states():
 def cases(rng, tier):
     N = 36 if tier == "quick" else 300
     for i in range(N):
-        if rng.random() < 0.6:
+        kak = rng.random() < 0.3
+        if kak:
+            target = cutfind.gen_kak(rng, tier)
+        elif rng.random() < 0.6:
             target = cutfind.gen_tie_rich(rng, tier)
             if rng.random() < 0.6:
                 target["seed"] = 0   # an integer seed like any other
@@ -58,7 +61,7 @@ def cases(rng, tier):
         target["max_gamma"] = max(1.0, target["max_gamma"])
         if target["max_backjumps"] is not None and target["max_backjumps"] < 0:
             target["max_backjumps"] = 2
-        hist = [cutfind.gen_case(rng, tier) for _ in range(rng.randint(2, 12))]
+        hist = [cutfind.gen_kak(rng, tier) if (kak and rng.random() < 0.6) else cutfind.gen_case(rng, tier) for _ in range(rng.randint(2, 12))]
         for h in hist:
             if rng.random() < 0.25 and h["nq"] >= 3:
                 h["instrs"].insert(0, {"name": "ccx", "qubits": [0, 1, 2]})
